@@ -147,6 +147,12 @@ def run_stream(spec):
             for k in keys:
                 twins[k].reset()
             ev.append(event("reset", ens, keys, twins, spec["election"]["kind"]))
+        if spec.get("replace_at") == t:
+            k = keys[rng.randrange(len(keys))]
+            fresh = pool[k][0]()
+            ens.detectors[k] = fresh
+            twins[k] = copy.deepcopy(fresh)
+            ev.append(event("replace", ens, keys, twins, spec["election"]["kind"]))
         if rng.random() < 0.03:
             # an update no member accepts (two observations at once): the ensemble passes the first member's ValueError on and counts nothing
             bad = np.array([[1.0, 2.0, 3.0], [4.0, 5.0, 6.0]])
@@ -252,7 +258,8 @@ def random_spec(rng, kind):
         members[0] = rng.choice(["ddm", "stepd"])          # a member that can warn again while its wait period is open
     n = rng.randint(80, 160) if kind == "stream" else rng.randint(8, 14)
     return {"seed": rng.randrange(10 ** 6), "members": members, "election": el, "frame": rng.random() < 0.5, "n": n,
-            "resets": sorted(rng.sample(range(2, n), rng.randint(0, 2))), "kind": kind}
+            "resets": sorted(rng.sample(range(2, n), rng.randint(0, 2))), "kind": kind,
+            "replace_at": rng.randint(n // 3, n - 5) if kind == "stream" and rng.random() < 0.5 else -1}
 
 
 def sabotage(trace, rng):
